@@ -140,6 +140,11 @@ SECTIONS = [
    ('C15_to_rfc3339_opts_total', 'to_rfc3339_opts_total', ''),
    ('C15_to_rfc3339_opts_total_partial', 'to_rfc3339_opts_total_partial', 'older form: C10 writer domain (whole-minute offsets, wall-clock year 0..9999, leap-second field only on second 59)'),
  ]),
+ ("DelayedFormat never traps (Proofs/C15Format.v): EVERY item -- every Numeric with every Pad, every Fixed incl. the internal ones and the RFC 2822 / RFC 3339 items, literals, the Error item -- on EVERY value of the five kinds (NaiveDate, NaiveTime, NaiveDateTime, DateTime<FixedOffset> with any offset and the wall-clock day one day outside the date range, DateTime<Utc>): the text, or fmt::Error by value (an item the value has no field for; a year outside 0..=9999 under the RFC 2822 item; the Error item).  Hence write_to / Display over arbitrary item lists and over StrftimeItems (strict or lenient) of every format string.  What the text IS on the documented family: C12_format_spec_family", [
+   ('C15_format_item_never_traps', 'format_item_never_traps', 'one item; [Proofs.C12.args_view a sv]: the formatter arguments denote a value (C12_args_view_date .. C12_args_view_dtz_all: every value has such a view)'),
+   ('C15_delayed_format_items_total', 'delayed_format_items_total', 'DelayedFormat::write_to / Display over an arbitrary item list (format_with_items), the five kinds of value'),
+   ('C15_delayed_format_strftime_total', 'delayed_format_strftime_total', 'DelayedFormat<StrftimeItems>: every format string, strict (repaired error()) or lenient (op c15.writeto, sf.fmt, sf.fmtl)'),
+ ]),
  ("Debug / Display of values never trap (to_string() / format!(\"{:?}\") panic on a writer error: there is none): every valid NaiveDate, NaiveTime, NaiveDateTime (leap-second fractions included), every FixedOffset (seconds included), Utc, and every well-formed DateTime<Tz> ([utc] = true: Tz = Utc) -- wall clock in the one-day headroom included.  What the text IS: C09's shape theorems (C09_shape_date ...) on their domain", [
    ('C15_show_date_total', 'show_date_total', ''),
    ('C15_show_time_total', 'show_time_total', ''),
@@ -182,9 +187,9 @@ HEADER = '''(** C15 -- fallible operations fail by value, not by panic or hang.
     Which inventory entries (gen/C15_inventory.json, printed in the evidence) have such a theorem and
     which are covered by correspondence + judge only is listed at the end of this file. *)
 From Coq Require Import ZArith List Bool String.
-From V Require Import Base.Int Base.IO Spec.Gregorian Model.Strftime Proofs.C15 Proofs.C15Owners Proofs.C15Strftime Proofs.C15Wide Proofs.C15Text Proofs.C15Utf8 Proofs.C15SfItems Proofs.C15Deep.
+From V Require Import Base.Int Base.IO Spec.Gregorian Model.Strftime Proofs.C15 Proofs.C15Owners Proofs.C15Strftime Proofs.C15Wide Proofs.C15Text Proofs.C15Utf8 Proofs.C15SfItems Proofs.C15Deep Proofs.C15Format.
 From V Require Model.Date Model.Time Model.DateTime Model.TimeDelta Model.DateExtra Model.Parsed Model.Parse Model.Rfc3339 Model.Show Model.Round Model.C02 Model.C15 Model.C19 Gen.Strftime
-               Base.Utf8 Model.Scan Model.FromStr Model.Rfc2822 Proofs.C13Total Proofs.C13Time Proofs.C14.
+               Base.Utf8 Model.Scan Model.FromStr Model.Rfc2822 Model.Format Proofs.C12 Proofs.C13Total Proofs.C13Time Proofs.C14.
 Import ListNotations.
 Open Scope Z_scope.
 
